@@ -5,12 +5,15 @@ package main
 
 import (
 	"bufio"
+	"context"
 	"encoding/json"
 	"fmt"
 	"math/rand/v2"
 	"os"
 	"sort"
 	"strings"
+
+	"github.com/tailscale/setec/client/setec"
 )
 
 // Record is one correspondence case.
@@ -136,4 +139,15 @@ func sortedKeys[V any](m map[string]V) []string {
 	}
 	sort.Strings(ks)
 	return ks
+}
+
+// newStoreReleased calls setec.NewStore the way programs usually do - with a start-up context that is released
+// as soon as NewStore has returned (`ctx, cancel := ...; defer cancel()`): the documentation says the context
+// governs initialisation only, so nothing the store does later (polling, flushing, lookups, Close) may depend
+// on it.
+func newStoreReleased(ctx context.Context, cfg setec.StoreConfig) (*setec.Store, error) {
+	ictx, cancel := context.WithCancel(ctx)
+	st, err := setec.NewStore(ictx, cfg)
+	cancel()
+	return st, err
 }
